@@ -5,6 +5,7 @@ import (
 	"go/constant"
 	"go/token"
 	"go/types"
+	"sort"
 	"strings"
 
 	"golang.org/x/tools/go/ssa"
@@ -64,6 +65,25 @@ func runC05(p *load.Program, r *oblig.Report) {
 	c05Control(p, r)
 	c05NullAndOrder(p, r)
 	c05PageRefs(p, r)
+	// the Conn/Reader path's offset reconstruction (relative inner offsets of v1 wrappers, v2 deltas) is checked by
+	// C02.R6; the same obligations are part of this property's "same records and absolute offsets" clause
+	shareRules(r, "C05", "C05.R9 Conn path reconstructs absolute offsets", func(sub *oblig.Report) { c02MessageReader(p, sub) })
+}
+
+// shareRules runs rules written for another property and files their obligations under this property's own rule name.
+func shareRules(r *oblig.Report, id, label string, run func(sub *oblig.Report)) {
+	sub := oblig.NewReport(id, r.Tier)
+	run(sub)
+	for _, o := range sub.Obs {
+		o2 := *o
+		o2.Rule = label + " (" + strings.SplitN(o.Rule, " ", 2)[0] + ")"
+		r.Add(&o2)
+	}
+	for k, v := range sub.MinCount {
+		if v[0] < v[1] {
+			r.RequireCount(label+" "+k, v[0], v[1])
+		}
+	}
 }
 
 func widthOf(method string) int {
@@ -480,6 +500,61 @@ func c05Readers(p *load.Program, r *oblig.Report) {
 		}
 		r.Check(strings.Join(seq, ",") == strings.Join(want, ","), rule, "readFromVersion2 → header read sequence and CRC start", p.Pos(fn.Pos()), strings.Join(want, ","), strings.Join(seq, ","))
 		r.Check(usesCRCTable(fn, "Castagnoli"), rule, "readFromVersion2 → CRC-32C table", p.Pos(fn.Pos()), "Castagnoli", "other")
+		// the record prefix: length, attributes, timestamp delta, offset delta (in that order); the record's offset and
+		// timestamp are the batch's base values plus the deltas read at positions 4 and 3
+		var offSt, tsSt *ssa.Store
+		an.EachInstr(fn, func(ins ssa.Instruction) {
+			st, ok := ins.(*ssa.Store)
+			if !ok {
+				return
+			}
+			if fa, isFA := st.Addr.(*ssa.FieldAddr); isFA {
+				switch an.FieldName(fa.X.Type(), fa.Field) {
+				case "offset":
+					offSt = st
+				case "timestamp":
+					tsSt = st
+				}
+			}
+		})
+		if offSt == nil || tsSt == nil {
+			r.Lost(rule, "stores to record.offset / record.timestamp in protocol.(*RecordSet).readFromVersion2")
+		} else {
+			// decoder reads inside the record loop that dominate the offset store, in dominance order
+			var reads []*ssa.Call
+			an.EachInstr(fn, func(ins ssa.Instruction) {
+				c, ok := ins.(*ssa.Call)
+				if !ok {
+					return
+				}
+				m, ok := methodOn(&c.Call, protoPath, "decoder")
+				if !ok || !strings.HasPrefix(m, "read") || !an.Dominates(c, offSt) {
+					return
+				}
+				q := an.PathQuery{Fn: fn, Target: func(i ssa.Instruction) bool { return i == ssa.Instruction(c) }}
+				if q.ReachableFrom(an.PointOf(c)) == nil {
+					return // not in the loop
+				}
+				reads = append(reads, c)
+			})
+			sort.SliceStable(reads, func(i, j int) bool { return an.Dominates(reads[i], reads[j]) && reads[i] != reads[j] })
+			var kinds []string
+			for _, c := range reads {
+				kinds = append(kinds, an.RefFuncName(c.Call.StaticCallee()))
+			}
+			uses := func(st *ssa.Store, c *ssa.Call) bool {
+				bo, ok := st.Val.(*ssa.BinOp)
+				if !ok || bo.Op != token.ADD {
+					return false
+				}
+				return an.Unwrap(bo.X) == ssa.Value(c) || an.Unwrap(bo.Y) == ssa.Value(c)
+			}
+			okSeq := strings.Join(kinds, ",") == "readVarInt,readInt8,readVarInt,readVarInt"
+			okUse := okSeq && uses(offSt, reads[3]) && uses(tsSt, reads[2])
+			r.Check(okUse, rule, "readFromVersion2 → a record's offset and timestamp are the base values plus the deltas stored in the record", p.Pos(offSt.Pos()),
+				"length, attributes, timestampDelta, offsetDelta; offset = baseOffset + offsetDelta; timestamp = firstTimestamp + timestampDelta",
+				"reads before the offset is set: "+strings.Join(kinds, ",")+"; offset = "+clean(an.Shape(offSt.Val))+"; timestamp = "+clean(an.Shape(tsSt.Val)))
+		}
 	}
 	rm := p.Func("protocol", "readMessage")
 	if rm == nil {
